@@ -19,6 +19,7 @@ LEAN_FILES = ['PnVerif/Model/Mode.lean', 'PnVerif/Spec/ModeSpec.lean', 'PnVerif/
 MODE_CALLS = ['enddef', 'redef', 'begin', 'end', 'close', 'abort', 'enddefargs 0']
 PREFIXES = [[], ['attach 1'], ['post iput f 0 0 vara'], ['attach 1', 'post bput f 0 0 vara'], ['post iget f 0 0 vara']]
 REJECT = {-33, -37, -39, -38, -203, -202}
+MINI5 = set(MODE_CALLS) | {'inq inq', 'rw 1 1 f 0 0 vara'}
 MINI = set(MODE_CALLS) | {'inq inq', 'rw 1 1 f 0 0 vara', 'post iput f 0 0 vara', 'defdim 0', 'sync', 'detach'}
 
 
@@ -39,24 +40,63 @@ def probes(has_rec, opened):
     add('setfill', True)
     for a in ('g 0 1', 'f 0 1', 'b 0 1', 'g 1 1', 'g 0 0', 'f 0 0'):
         add('delatt ' + a, a == 'g 0 1')
-    # attributes: v nameBad typeBad charMix negLen exists grows
-    for a in ('g 0 0 0 0 1 0', 'g 0 0 0 0 1 1', 'g 0 0 0 0 0 0', 'f 0 0 0 0 1 0', 'f 0 0 0 0 1 1', 'f 0 0 0 0 0 0',
-              'b 0 0 0 0 1 0', 'g 1 0 0 0 1 0', 'g 0 1 0 0 1 0', 'g 0 0 1 0 1 0', 'g 0 0 0 1 1 0',
-              'b 1 1 1 1 1 1', 'g 1 1 1 1 0 0', 'g 0 1 1 1 1 1', 'g 0 0 1 1 1 1', 'g 0 0 0 1 0 0', 'g 0 0 0 1 1 1'):
-        add('putatt ' + a, a in ('g 0 0 0 0 1 0', 'g 0 0 0 0 1 1', 'g 0 0 0 0 0 0', 'g 0 0 0 1 1 1'))
+    # attributes: putatt v nameBad typeBad charMix negLen exists oldType oldCount newType newCount name
+    #   the attribute overwritten is o<type><count> of the schema (harness/c14_mode.c ATTS); the new value realises
+    #   "needs more header space" in every way: same type more / fewer elements, wider type same count, wider type
+    #   fewer elements but more bytes, narrower type more elements in the same or less space, text <-> numeric,
+    #   and both sides of the 4-byte padding (3 -> 4 chars stays in the padded word, 4 -> 5 does not; 2 -> 3 shorts ...)
+    OVER = [('i', 2, 'i', 2), ('i', 2, 'i', 3), ('i', 2, 'i', 1), ('i', 1, 'd', 1), ('i', 3, 'd', 2), ('i', 2, 'd', 1),
+            ('i', 2, 's', 4), ('i', 2, 's', 3), ('i', 2, 's', 5), ('i', 1, 's', 2), ('i', 1, 's', 3), ('d', 1, 'i', 2),
+            ('d', 1, 'i', 3), ('d', 2, 'i', 4), ('d', 1, 'c', 8), ('i', 1, 'c', 3), ('i', 1, 'c', 4), ('i', 1, 'c', 5),
+            ('c', 3, 'c', 4), ('c', 4, 'c', 5), ('c', 5, 'c', 8), ('c', 5, 'c', 3), ('c', 4, 'i', 1), ('c', 4, 'i', 2),
+            ('c', 3, 's', 2), ('c', 3, 's', 3), ('s', 2, 's', 3), ('s', 3, 's', 4), ('s', 3, 's', 5), ('s', 3, 'i', 2),
+            ('s', 2, 'i', 2), ('b', 3, 'b', 4), ('b', 3, 'b', 5), ('b', 3, 's', 2), ('d', 2, 'd', 2), ('d', 1, 'd', 2),
+            ('i', 2, 'f', 2), ('i', 2, 'f', 3), ('i', 1, 'i', 0), ('c', 3, 'c', 0)]
+    CORE_OVER = {('i', 2, 'i', 2), ('i', 2, 'i', 3), ('i', 1, 'd', 1), ('i', 3, 'd', 2), ('i', 2, 's', 4), ('c', 3, 'c', 4),
+                 ('c', 4, 'c', 5), ('i', 1, 'c', 5)}
+    for k, (ot, on, nt, nn) in enumerate(OVER):
+        for v in ('g', 'f'):
+            if v == 'f' and k % 2:
+                continue
+            add('putatt %s 0 0 0 0 1 %s %d %s %d o%s%d' % (v, ot, on, nt, nn, ot, on), (ot, on, nt, nn) in CORE_OVER and v == 'g')
+    add('putatt g 0 0 0 0 0 i 0 i 2 zz', True)           # new attribute
+    add('putatt f 0 0 0 0 0 i 0 c 3 zz')
+    add('putatt g 0 0 0 0 0 i 0 i 0 zz')                 # new, empty
+    for a in ('b 0 0 0 0 1 i 2 i 2 oi2', 'g 1 0 0 0 1 i 2 i 2 oi2', 'g 0 1 0 0 1 i 2 i 2 oi2', 'g 0 0 1 0 1 i 2 i 2 oi2',
+              'g 0 0 0 1 1 i 2 i 2 oi2', 'b 1 1 1 1 1 i 2 i 4 oi2', 'g 1 1 1 1 0 i 0 i 2 zz', 'g 0 1 1 1 1 i 2 i 4 oi2',
+              'g 0 0 1 1 1 i 2 i 4 oi2', 'g 0 0 0 1 0 i 0 i 2 zz', 'g 0 0 0 1 1 i 2 i 4 oi2'):
+        add('putatt ' + a, a == 'g 0 0 0 1 1 i 2 i 4 oi2')
     for a in ('g 0 1', 'g 0 0', 'f 0 1', 'b 0 1', 'g 1 1'):
         add('getatt ' + a, a == 'g 0 1')
-    for a in ('0 0 0 1 1 0', '0 0 0 1 1 1', '0 0 0 1 0 0', '0 0 0 0 0 0', '1 0 0 1 1 0', '0 1 0 1 1 0',
-              '0 0 1 1 1 0', '1 1 1 0 0 0'):
-        add('copyatt ' + a, a in ('0 0 0 1 1 0', '0 0 0 1 1 1'))
-    for a in ('g 0 1 0 0', 'g 0 1 0 1', 'g 0 1 1 0', 'g 0 0 0 0', 'g 0 0 1 0', 'f 0 1 0 0', 'f 0 1 0 1',
-              'b 0 1 0 0', 'g 1 1 0 0', 'b 1 0 1 0'):
-        add('renameatt ' + a, a in ('g 0 1 0 0', 'g 0 1 0 1'))
-    for a in ('f 0 0 0', 'f 0 0 1', 'f 0 1 0', 'c 0 0 1', 'g 0 0 0', 'b 0 0 0', 'f 1 0 0', 'g 1 1 1') + \
-            (('r 0 0 0',) if has_rec else ()):
-        add('renamevar ' + a, a in ('f 0 0 0', 'f 0 0 1'))
-    for a in ('0 0 0 0', '0 0 0 1', '0 0 1 0', '0 1 0 0', '1 0 0 0', '1 1 1 1', '0 1 1 0'):
-        add('renamedim ' + a, a in ('0 0 0 0', '0 0 0 1'))
+    # copyatt vinBad voutBad nameBad srcExists dstExists srcType srcCount dstType dstCount name   (global -> fv)
+    PAIRS = [('i', 3, 'i', 2), ('d', 1, 'i', 1), ('d', 2, 'i', 3), ('s', 4, 'i', 2), ('s', 3, 'i', 2), ('c', 3, 'i', 1),
+             ('c', 5, 'i', 1), ('i', 1, 'c', 4), ('i', 2, 'c', 4), ('c', 4, 'c', 3), ('c', 5, 'c', 4), ('i', 2, 'i', 2),
+             ('i', 1, 'd', 1)]
+    for k, (st, sn, dt, dn) in enumerate(PAIRS):
+        add('copyatt 0 0 0 1 1 %s %d %s %d p%d' % (st, sn, dt, dn, k), k in (0, 1, 3, 9))
+    add('copyatt 0 0 0 1 0 i 2 i 0 ga', True)             # no attribute of that name at the destination
+    add('copyatt 0 0 0 0 0 i 0 i 0 nonexist')
+    add('copyatt 1 0 0 1 1 i 2 i 2 p11'); add('copyatt 0 1 0 1 1 i 2 i 2 p11'); add('copyatt 0 0 1 1 1 i 2 i 2 p11')
+    add('copyatt 1 1 1 0 0 i 0 i 0 nonexist')
+    # renameatt v nameBad exists newInUse oldLen newLen oldname : shorter / equal / longer inside and across the padded word
+    for old in ('ga', 'oi1'):
+        for nl in (1, 2, 3, 4, 5):
+            add('renameatt g 0 1 0 %d %d %s' % (len(old), nl, old), old == 'ga' and nl in (2, 3))
+    for nl in (1, 2, 3, 5):
+        add('renameatt f 0 1 0 2 %d va' % nl)
+    for a in ('g 0 1 1 2 2 ga', 'g 0 0 0 8 2 nonexist', 'g 0 0 1 8 2 nonexist', 'b 0 1 0 2 2 va', 'g 1 1 0 2 2 ga', 'b 1 0 1 8 2 nonexist'):
+        add('renameatt ' + a)
+    # renamevar v nameBad inUse oldLen newLen (old names have 2 bytes)
+    for nl in (1, 2, 3, 4, 5):
+        add('renamevar f 0 0 2 %d' % nl, nl in (2, 3))
+    for a in ('f 0 1 2 2', 'c 0 0 2 5', 'c 0 0 2 1', 'g 0 0 2 2', 'b 0 0 2 2', 'f 1 0 2 2', 'g 1 1 2 9') + \
+            (('r 0 0 2 2', 'r 0 0 2 3') if has_rec else ()):
+        add('renamevar ' + a)
+    # renamedim nameBad dimBad inUse oldLen newLen (dim x: 1 byte, dim xlong: 5 bytes)
+    for ol, nl in ((1, 1), (1, 2), (1, 4), (1, 5), (5, 1), (5, 4), (5, 5), (5, 6), (5, 8), (5, 9)):
+        add('renamedim 0 0 0 %d %d' % (ol, nl), (ol, nl) in ((1, 1), (1, 2)))
+    for a in ('0 0 1 1 1', '0 1 0 1 1', '1 0 0 1 1', '1 1 1 1 9', '0 1 1 1 1'):
+        add('renamedim ' + a)
     # blocking access: isPut coll v text coordBad flavour
     for is_put in (1, 0):
         for coll in (1, 0):
@@ -106,7 +146,16 @@ def gen_script(tier, rng, cfg):
     for kind, has_rec in starts:
         opened = kind != 'created'
         PR = probes(has_rec, opened)
-        maxd = depth_mini if (has_rec and kind != 'openro') else (depth_core if has_rec else min(depth_core, 2 if tier == 'quick' else 3))
+        # deepest histories from `created` (it reaches every mode), one level less from opened-writable, and a
+        # read-only file (where redef is refused and little can happen) up to depth 3
+        if not has_rec:
+            maxd = min(depth_core, 2 if tier == 'quick' else 3)
+        elif kind == 'created':
+            maxd = depth_mini
+        elif kind == 'openrw':
+            maxd = depth_core
+        else:
+            maxd = min(depth_core, 3)
         for d in range(0, maxd + 1):
             for seqc in itertools.product(MODE_CALLS, repeat=d):
                 # prefixes: all of them on short histories, a seeded one on the long ones
@@ -130,7 +179,9 @@ def gen_script(tier, rng, cfg):
                     for c in seqc:
                         lines.append('C ' + c); meta.append((cid, 'C', pend))
                     for p, core in PR:
-                        if closed_early or d > depth_core:
+                        if d > depth_core:
+                            take = p in MINI5
+                        elif closed_early:
                             take = p in MINI
                         else:
                             take = full or core
@@ -324,6 +375,7 @@ def run_check(tier, seed):
         'argument classes (varid in range / NC_GLOBAL / out of range, attribute exists / grows, name in use / longer …) are realised by the harness on one fixed schema; the model does not re-derive them',
         'I/O and memory allocation succeed (fault injection is C11); MPI refuses a write on a file opened MPI_MODE_RDONLY with MPI_ERR_READ_ONLY (the model of the unchecked ncmpi_fill_var_rec path relies on it; exercised)',
         'Cfg.fillChecksErr (does ncmpi_fill_var_rec return the error of its own tests) is calibrated by one call on the real library; theorems exist for both values',
+        '"larger than the old one" (put_att / copy_att in data mode) is read as: needs more header space = more bytes after padding the values to 4 (CDF format); 3 -> 4 chars is therefore permitted in data mode, 4 -> 5 is not; proved equal to x_len_NC_attrV for every type class and count (attr_space_is_padded_size); rename: new name longer in bytes',
         'where the documentation fixes no relative order of two argument errors the specification lists them in the implementation order (marked in Spec/ModeSpec.lean)',
     ]
     V.cov['trusted_base'] = TRUSTED_BASE_COMMON + [
@@ -405,7 +457,7 @@ def run_check(tier, seed):
         tie, prop = compare(lines, meta, cres, lres, V, stats, 'np1')
         # ---- 2-rank sample (every k-th case), same comparison
         t2 = Timer()
-        step_k = 23 if tier == 'quick' else 7
+        step_k = 23 if tier == 'quick' else 13
         off = rng.below(step_k)
         sl, sm = [], []
         for ln, m in zip(lines, meta):
@@ -499,7 +551,7 @@ def run_check(tier, seed):
                          'num_rec_vars, file-bytes-changed and file-exists are compared with the model and the returned code / mode / '
                          'no-effect rule with the documented automaton.  non-trivial = the call was rejected or changed the state; '
                          'distinct = distinct (real state before, call) pairs') % (
-                                 ('3', '2') if tier == 'quick' else ('5 (depth 5: mode calls and a few probes only)', '3'))
+                                 ('3', '2') if tier == 'quick' else ('5 from created, 4 from opened-writable, 3 from read-only (depth 5: mode calls and two probes only)', '3'))
         V.cov['distribution'] = dict(calls_by_kind=stats['by_kind'], codes_returned={str(k): v for k, v in sorted(stats['errors'].items())},
                                      cases=ncase)
         V.cov['samples'] = [[l for l, m in zip(lines, meta) if m[0] == c][:12] for c in (1, max(1, ncase // 3), max(1, ncase // 2))] + [
